@@ -1372,4 +1372,32 @@ theorem branch_id_history {h : Hist} {o : LoadOpts} {m : LMap} (hl : load h o = 
   rw [← sharesLineage_history hl hu hd i br]
   exact branch_id hl L br hb i hi hp
 
+/-! ### the absolute downgrade target `<branch>@<revision id>` -/
+
+/-- `"<b>@<x>".rpartition("@")` when `x` has no `@` -/
+theorem rpartitionAt_at (b x : String) (hx : '@' ∉ x.toList) : rpartitionAt (b ++ "@" ++ x) = (b, x) := by
+  unfold rpartitionAt
+  have e : (b ++ "@" ++ x).toList.reverse = x.toList.reverse ++ '@' :: b.toList.reverse := by
+    simp [String.toList_append]
+  have : (b ++ "@" ++ x).toList.reverse.span (· != '@') = (x.toList.reverse, '@' :: b.toList.reverse) := by
+    rw [e]
+    unfold List.span
+    rw [span_loop_stop _ x.toList.reverse [] '@' b.toList.reverse
+      (by intro c hc; simp; intro e; subst e; exact hx (List.mem_reverse.mp hc)) (by simp)]
+    simp
+  simp only [this, List.reverse_reverse, String.ofList_toList]
+
+/-- **`downgrade <branch>@<revision id>`**: for a target the relative pattern does not match, written as a
+non-empty branch qualifier, `@`, and a full revision id, `_parse_downgrade_target` answers that revision
+and keeps the qualifier as the branch restriction — it does not ask whether the revision lies on that
+branch (the absolute form resolves the id alone; seeded change C02-m made it resolve `<branch>@<id>` and
+so refuse an unrelated qualifier). -/
+theorem parse_dgrade_qualified (m : LMap) (rows : List Id) (L : String) (i : Id) (hi : i ∈ m.ids) (hp : Plain i)
+    (hL : L.isEmpty = false) (hm : matchRelative (L ++ "@" ++ i) = none) :
+    parseDowngradeTarget m rows (L ++ "@" ++ i) = .ok (some L, some i) := by
+  unfold parseDowngradeTarget
+  simp [hm, rpartitionAt_at L i hp.1, (full_id m i hi hp).2, hL, bind, Except.bind, pure, Except.pure]
+
+example : matchRelative "lib@abcd12" = none ∧ rpartitionAt "lib@abcd12" = ("lib", "abcd12") := by decide +kernel
+
 end C16
